@@ -84,10 +84,16 @@ def write_case(d, asms, assign, gap_model='flow', core_len=0.4, pitch=0.030, set
         npin = 3 * a['n'] * (a['n'] - 1) + 1
         nsc = 6 * (a['n'] ** 2 - a['n'] + 1)
         nd = 6 * a['n'] * (len(a['ftf']) // 2)
-        for (zlo, zhi) in cells:
+        for ci, (zlo, zhi) in enumerate(cells):
             for comp, cnt in ((1, npin), (2, nd), (3, nsc)):
                 for k in range(cnt):
-                    c0 = pin_power(k) if comp == 1 else other_power
+                    if comp == 1:
+                        try:
+                            c0 = pin_power(k, ci)          # optional second argument: index of the axial power cell
+                        except TypeError:
+                            c0 = pin_power(k)
+                    else:
+                        c0 = other_power
                     rows.append([aid, comp, zlo, zhi, k + 1, c0] + [0.0] * (n_terms - 1))
     np.savetxt(os.path.join(d, 'power.csv'), np.array(rows), delimiter=',', fmt='%.12g')
     return os.path.join(d, 'input.txt')
